@@ -4,9 +4,10 @@
 (* every single cross-reference damage.  File, crash point and damage are  *)
 (* chosen by actions, so TLC's workers share the enumeration.              *)
 EXTENDS SeqScan
-AllKinds == {"int", "real", "name", "kw", "str", "hex", "ref", "arr", "dict", "stream", "istream"}
+AllKinds == {"int", "real", "name", "kw", "str", "hex", "ref", "arr", "dict", "stream", "istream", "mstreamT", "mstreamE"}
 SomeKinds == {"int", "dict", "istream"}
-MostKinds == {"int", "kw", "str", "ref", "arr", "dict", "stream", "istream"}
+MostKinds == {"int", "str", "ref", "dict", "stream", "istream", "mstreamT", "mstreamE"}
+MarkerKinds == {"int", "dict", "mstreamT", "mstreamE"}
 BothTails == {"table", "xrefstm"}
 AllDamages == {"xrefbody", "xrefdata", "startxref"}
 =============================================================================
